@@ -5,6 +5,7 @@ package resources
 
 import (
 	"context"
+	"strconv"
 
 	"github.com/NVIDIA/KAI-scheduler/pkg/common/constants"
 
@@ -29,6 +30,17 @@ func ExtractGPUSharingReceivedResources(ctx context.Context, pod *v1.Pod, kubeCl
 	}
 
 	fractionResource, err := calculateAllocatedFraction(ctx, pod, kubeClient)
+	if err != nil {
+		resources[constants.NvidiaGpuResource] = fractionResource
+		return resources, err
+	}
+
+	// a pod that asked for several fractional devices received that portion on each of them
+	if gpuFractionsCountStr, hasAnnotation := pod.Annotations[constants.GpuFractionsNumDevices]; hasAnnotation {
+		if fractionsCount, parseErr := strconv.ParseInt(gpuFractionsCountStr, 10, 64); parseErr == nil && fractionsCount > 1 {
+			fractionResource.Mul(fractionsCount)
+		}
+	}
 	resources[constants.NvidiaGpuResource] = fractionResource
-	return resources, err
+	return resources, nil
 }
